@@ -2,6 +2,7 @@
 // histories on two wrapper slots, de-duplicated on the reference model; every transition replayed on
 // fresh real wrappers; differential against the un-erased behaviour; lifetime ledger per payload kind.
 #include "seqx.h"
+#include <functional>
 #include <pika/execution.hpp>
 #include <pika/execution_base/any_sender.hpp>
 #include <pika/functional/function.hpp>
@@ -330,6 +331,97 @@ static void sender_grid()
             }
 }
 
+// all histories (no de-duplication) up to a depth over two wrapper slots: store small / large sender, move-
+// assign, copy-assign, assign an empty wrapper, reset, move-construct a temporary, connect as rvalue (consumes)
+// and as lvalue (copyable wrappers); reference model: a slot is empty or holds a sender of a known kind
+enum SOp { S_STORE, S_MOVE, S_COPY, S_ASSIGN_EMPTY, S_RESET, S_MOVECONS, S_CONNECT_R, S_CONNECT_L, S_SELF_MOVE };
+struct SStep { int op, a, b; };
+template <typename W, bool COPYABLE>
+static void sender_histories(int depth)
+{
+    std::vector<SStep> alpha;
+    for (int a = 0; a < 2; ++a)
+    {
+        alpha.push_back({S_STORE, a, 0});
+        alpha.push_back({S_STORE, a, 1});
+        alpha.push_back({S_MOVE, a, 1 - a});
+        if (COPYABLE) alpha.push_back({S_COPY, a, 1 - a});
+        alpha.push_back({S_ASSIGN_EMPTY, a, 0});
+        alpha.push_back({S_RESET, a, 0});
+        alpha.push_back({S_MOVECONS, a, 1 - a});
+        alpha.push_back({S_CONNECT_R, a, 0});
+        if (COPYABLE) alpha.push_back({S_CONNECT_L, a, 0});
+    }
+    static const char* opn[] = {"store", "move_assign", "copy_assign", "assign_empty", "reset", "move_construct_temp_then_move_to", "connect_rvalue", "connect_lvalue", "self"};
+    size_t const n = alpha.size();
+    for (int ch = 0; ch < 3; ++ch)
+    {
+        std::vector<size_t> idx;
+        // iterative enumeration of all index sequences of length 1..depth
+        std::function<void()> rec = [&] {
+            if (!idx.empty())
+            {
+                std::string hs;
+                for (size_t i : idx) { char b[64]; snprintf(b, sizeof b, "%s(%d,%d) ", opn[alpha[i].op], alpha[i].a, alpha[i].b); hs += b; }
+                seqx::begin_case("%s channel=%d: %s", COPYABLE ? "any_sender" : "unique_any_sender", ch, hs.c_str());
+                ++seqx::g->transitions;
+                for (int i = 0; i < 4; ++i) g_live[i] = g_ctor[i] = g_dtor[i] = 0;
+                g_double_destroy = 0;
+                {
+                    W w[2];
+                    int model[2] = {-1, -1};    // -1 empty, else kind
+                    auto connect = [&](W& x, int& m, bool rvalue) {
+                        Out o;
+                        bool threw = false;
+                        int before = m;
+                        try
+                        {
+                            if (rvalue) { auto os = ex::connect(std::move(x), SRec{&o}); ex::start(os); }
+                            else if constexpr (COPYABLE) { auto os = ex::connect(x, SRec{&o}); ex::start(os); }
+                        }
+                        catch (pika::exception const& e) { threw = e.get_error() == pika::error::bad_function_call; }
+                        if (before < 0) { SEQX_CHECK(threw && o.nv + o.ne + o.ns == 0, "empty-use", "connecting an empty wrapper did not throw bad_function_call (signals: %d)", o.nv + o.ne + o.ns); return; }
+                        SEQX_CHECK(!threw && o.nv + o.ne + o.ns == 1, "completion-count", "connect of a wrapper holding kind %d: threw %d, %d completion signals", before, (int) threw, o.nv + o.ne + o.ns);
+                        if (ch == 0) SEQX_CHECK(o.nv == 1 && o.val == before * 100 + 5, "differs-from-unerased", "value %d, the wrapped sender sends %d", o.val, before * 100 + 5);
+                        if (ch == 1) SEQX_CHECK(o.ne == 1 && o.err == "E" + std::to_string(before), "differs-from-unerased", "error '%s', the wrapped sender sends E%d", o.err.c_str(), before);
+                        if (ch == 2) SEQX_CHECK(o.ns == 1, "differs-from-unerased", "not stopped");
+                        if (rvalue) m = -1;
+                    };
+                    for (size_t i : idx)
+                    {
+                        SStep st = alpha[i];
+                        switch (st.op)
+                        {
+                        case S_STORE: if (st.b == 0) w[st.a] = Snd<0, 1>{{}, ch}; else w[st.a] = Snd<1, 96>{{}, ch}; model[st.a] = st.b; break;
+                        case S_MOVE: w[st.a] = std::move(w[st.b]); model[st.a] = model[st.b]; model[st.b] = -1; break;
+                        case S_COPY: if constexpr (COPYABLE) { w[st.a] = w[st.b]; model[st.a] = model[st.b]; } break;
+                        case S_ASSIGN_EMPTY: w[st.a] = W{}; model[st.a] = -1; break;
+                        case S_RESET: w[st.a].reset(); model[st.a] = -1; break;
+                        case S_MOVECONS: { W t(std::move(w[st.a])); int m = model[st.a]; model[st.a] = -1; w[st.b] = std::move(t); model[st.b] = m; } break;
+                        case S_CONNECT_R: connect(w[st.a], model[st.a], true); break;
+                        case S_CONNECT_L: connect(w[st.a], model[st.a], false); break;
+                        }
+                        for (int k = 0; k < 2; ++k)
+                            SEQX_CHECK(w[k].empty() == (model[k] < 0), "differs-from-unerased", "after %s(%d,%d): slot %d is %s, the un-erased reference is %s", opn[st.op], st.a, st.b, k, w[k].empty() ? "empty" : "full", model[k] < 0 ? "empty" : "full");
+                        int live[2] = {0, 0};
+                        for (int k = 0; k < 2; ++k) if (model[k] >= 0) ++live[model[k]];
+                        SEQX_CHECK(g_live[0] == live[0] && g_live[1] == live[1], "lifetime-ledger", "after %s(%d,%d): %d small / %d large senders alive, reference %d / %d", opn[st.op], st.a, st.b, g_live[0], g_live[1], live[0], live[1]);
+                    }
+                    // probe: what the two slots hold now must behave like the reference says
+                    for (int k = 0; k < 2; ++k) connect(w[k], model[k], true);
+                }
+                for (int i = 0; i < 4; ++i)
+                    SEQX_CHECK(g_live[i] == 0 && g_ctor[i] == g_dtor[i], "lifetime-ledger", "sender payload kind %d: %d constructed, %d destroyed, %d alive at the end", i, g_ctor[i], g_dtor[i], g_live[i]);
+                SEQX_CHECK(g_double_destroy == 0, "double-destroy", "a stored sender was destroyed twice");
+                ++seqx::g->states;
+            }
+            if ((int) idx.size() == depth) return;
+            for (size_t i = 0; i < n; ++i) { idx.push_back(i); rec(); idx.pop_back(); }
+        };
+        rec();
+    }
+}
+
 int main(int argc, char** argv)
 {
     auto o = seqx::parse(argc, argv, "C18");
@@ -341,6 +433,8 @@ int main(int argc, char** argv)
         {"function_histories", [](bool t) { bfs<RealFn<fn_t, true>>(t ? 6 : 4, true, t ? 4 : 3); }, "function<int(int)>: histories over 2 slots x {assign small/large/throwing/empty, copy, self-copy, move, reset, swap, call, copy-construct temp, move-construct temp (dropped / moved back / moved on)}; all histories up to depth 3 (thorough 4) without de-duplication, beyond that one representative per reference state"},
         {"unique_function_histories", [](bool t) { bfs<RealFn<ufn_t, false>>(t ? 6 : 4, false, t ? 4 : 3); }, "unique_function<int(int)>: the same without copies, plus a move-only callable"},
         {"any_sender_scripts", [](bool) { sender_grid<ex::any_sender<int>, true>(); }, "any_sender<int>: 12 move/copy/reset/connect scripts x small/large stored sender x value/error/stopped"},
+        {"any_sender_histories", [](bool t) { sender_histories<ex::any_sender<int>, true>(t ? 4 : 3); }, "any_sender<int>: all histories up to depth 3 (thorough 4) over two slots x {store small/large, move-assign, copy-assign, assign empty, reset, move-construct, connect rvalue/lvalue} x value/error/stopped"},
+        {"unique_any_sender_histories", [](bool t) { sender_histories<ex::unique_any_sender<int>, false>(t ? 4 : 3); }, "unique_any_sender<int>: the same without copies"},
         {"unique_any_sender_scripts", [](bool) { sender_grid<ex::unique_any_sender<int>, false>(); }, "unique_any_sender<int>: the scripts without copies"},
     };
     return seqx::main_loop(o, specs,
